@@ -238,6 +238,31 @@ def run(prog: Program, rep, thorough: bool) -> None:
                  f'after zeroing the stored zero is {stored!r} and the shot fires at {raw!r}; the elevation found was E '
                  f'(look angle L)')
 
+    # ---- R1 (budget): what the search loop carries from one pass to the next starts afresh in every call ----------
+    top_loops = [s_ for s_ in za.node.body if isinstance(s_, ast.While)]
+    if len(top_loops) == 1:
+        lp = top_loops[0]
+        head = cfg.node_of(lp.test)
+        in_loop = {n.id for n in cfg.nodes if n.ast is not None and any(n.ast is x for x in ast.walk(lp))}
+        carried = set()
+        for n in cfg.nodes:
+            if n.id in in_loop and n.ast is not None and n.ast is not lp.test:
+                carried |= set(defs_of(n))
+        read = {x.id for x in ast.walk(lp.test) if isinstance(x, ast.Name)} | \
+               {norm(x) for x in ast.walk(lp.test) if isinstance(x, ast.Attribute)}
+        stale = []
+        for loc in sorted(carried & read):
+            before = [d for d in deps.rd[head.id].get(loc, set()) if d not in in_loop and d != cfg.entry.id]
+            if not before:
+                stale.append(loc)
+        if stale:
+            rep.fail('C02.R1', tc.path, lp.lineno, za.qualname, f'budget:{stale[0]}',
+                     f'the search loop tests and advances `{stale[0]}`, which zero_angle never initialises: its value is left '
+                     f'over from earlier calls on the same calculator, so the iteration budget (or the error) is shared by '
+                     f'all zeroings and a reachable target eventually fails')
+        else:
+            rep.ok('C02.R1', tc.where(lp), f'loop-carried {sorted(carried & read)} are initialised in zero_angle before the loop')
+
     # ---- R4 ------------------------------------------------------------------------------------
     ev2 = Evaluator(prog, opaque={'_init_trajectory', '_integrate'})
     st = State()
@@ -307,6 +332,7 @@ def run(prog: Program, rep, thorough: bool) -> None:
 TCF = 'py_ballisticcalc/trajectory_calc/_trajectory_calc.py'
 IFF = 'py_ballisticcalc/interface.py'
 VARIANTS = [
+    Variant('iteration-counter-on-the-instance', 'break', [(TCF, '        iterations_count = 0\n', ''), (TCF, 'iterations_count', 'self.iterations_count', 3)], 'C02.R1', 'seeded change C02/5: the budget is shared by all zeroings of one calculator'),
     Variant('final-raise-removed', 'break', [(TCF, '        if zero_finding_error > _cZeroFindingAccuracy:\n            # ZeroFindingError contains an instance of last barrel elevation; so caller can check how close zero is\n            raise ZeroFindingError(zero_finding_error, iterations_count, Angular.Radian(self.barrel_elevation))\n', '')], 'C02.R1', 'returns the last elevation although the accuracy was not met', 'pass'),
     Variant('adjust-after-last-measurement', 'break', [(TCF, '            if zero_finding_error > _cZeroFindingAccuracy:\n                # Adjust barrel elevation to close height at zero distance\n                self.barrel_elevation -= (height - height_at_zero) / zero_distance\n            else:  # last barrel_elevation hit zero!\n                break\n', '            # Adjust barrel elevation to close height at zero distance\n            self.barrel_elevation -= (height - height_at_zero) / zero_distance\n')], 'C02.R1', 'the elevation returned was never measured'),
     Variant('compare-double-accuracy', 'break', [(TCF, '        if zero_finding_error > _cZeroFindingAccuracy:\n            # ZeroFindingError', '        if zero_finding_error > _cZeroFindingAccuracy * 2:\n            # ZeroFindingError')], 'C02.R1'),
